@@ -43,3 +43,84 @@ package statebackend
 //@   ensures genesis: result == nil && !headExists ==> block.Number == 0 && *block.ParentHash == felt.Zero
 //@   ensures readerr: headReadFailed ==> result != nil
 //@   ensures parent_sentinel: result == ErrParentDoesNotMatchHead ==> (headExists ==> block.Number == uint64(headNumber + 1) && *block.ParentHash != headHash) && (!headExists ==> block.Number == 0)
+
+// ---- reverting the head: one transaction, the event filter rolled back inside it (C04) -----------
+// Both back-ends revert the head inside one database transaction whose body is the closure
+// RevertHead$1: read the head, undo its state update, delete its content, and step the running
+// event filter back THROUGH THE SAME BATCH, so that the filter's persisted window is removed or kept
+// together with the block. Nothing outside the transaction touches the filter. What the steps do is
+// assumed (logged entry points); what is proved is that each runs exactly once, in this order's
+// data flow (the block number and state update that were read), with the transaction's batch.
+//@ ghost var writeErr error
+//@ ghost var headRead uint64
+//@ extern func github.com/NethermindEth/juno/db.KeyValueStore.Write
+//@   logged as DBWrite
+//@   sets writeErr = result
+//@ extern func github.com/NethermindEth/juno/db.KeyValueStore.Update
+//@   logged as DBUpdate
+//@   sets writeErr = result
+//@ extern func github.com/NethermindEth/juno/core.GetChainHeight
+//@   sets headRead = result0
+//@ extern func github.com/NethermindEth/juno/core.GetStateUpdateByBlockNum
+//@   logged as GetStateUpdate
+//@   ensures result1 == nil ==> result0 != nil
+//@ extern func github.com/NethermindEth/juno/core.GetBlockHeaderByNumber
+//@   logged as GetHeader
+//@   ensures result1 == nil ==> result0 != nil
+//@ extern func github.com/NethermindEth/juno/core/state.New
+//@   ensures result1 == nil ==> result0 != nil
+//@ extern func github.com/NethermindEth/juno/core/state.(*State).Revert
+//@   logged as StateRevert
+//@ extern func github.com/NethermindEth/juno/core/deprecatedstate.New
+//@   ensures result != nil
+//@ extern func github.com/NethermindEth/juno/core/deprecatedstate.(*State).Revert
+//@   logged as LegacyRevert
+//@ func deleteBlockContent
+//@   trusted
+//@   logged
+//@ extern func github.com/NethermindEth/juno/core.(*RunningEventFilter).OnReorgWithBatch
+//@   logged as OnReorgWithBatch
+//@ extern func github.com/NethermindEth/juno/core.(*RunningEventFilter).OnReorg
+//@   logged as OnReorg
+//@ func (*stateBackend).RevertHead
+//@   props C04
+//@   arith int
+//@   requires b != nil && b.database != nil
+//@   modifies *
+//@   assigns writeErr, calls_DBWrite, arg_DBWrite_fn
+//@   ensures one_transaction: calls_DBWrite == old(calls_DBWrite) + 1 && result == writeErr
+//@   ensures filter_only_inside: calls_OnReorg == old(calls_OnReorg) && calls_OnReorgWithBatch == old(calls_OnReorgWithBatch)
+//@ func (*stateBackend).RevertHead$1
+//@   props C04
+//@   arith int
+//@   nosafe
+//@   requires *b != nil && (*b).database != nil && (*b).runningFilter != nil
+//@   modifies *
+//@   assigns headRead, calls_GetStateUpdate, arg_GetStateUpdate_r, arg_GetStateUpdate_blockNum, calls_GetHeader, arg_GetHeader_r, arg_GetHeader_blockNum, calls_StateRevert, arg_StateRevert_header, arg_StateRevert_update, calls_deleteBlockContent, arg_deleteBlockContent_r, arg_deleteBlockContent_w, arg_deleteBlockContent_stateUpdate, arg_deleteBlockContent_blockNumber, calls_OnReorgWithBatch, arg_OnReorgWithBatch_batch
+//@   callsite GetStateUpdateByBlockNum@*: of_the_head: $1 == headRead
+//@   callsite GetBlockHeaderByNumber@*: of_the_head: $1 == headRead
+//@   callsite deleteBlockContent@*: of_the_head_into_the_batch: $1 == batch && $3 == headRead
+//@   callsite OnReorgWithBatch@*: into_the_batch: $1 == batch
+//@   ensures all_steps_once: result == nil ==> calls_StateRevert == old(calls_StateRevert) + 1 && calls_deleteBlockContent == old(calls_deleteBlockContent) + 1 && calls_OnReorgWithBatch == old(calls_OnReorgWithBatch) + 1
+//@   ensures filter_with_the_batch: calls_OnReorg == old(calls_OnReorg)
+//@ func (*deprecatedStateBackend).RevertHead
+//@   props C04
+//@   arith int
+//@   requires b != nil && b.database != nil
+//@   modifies *
+//@   assigns writeErr, calls_DBUpdate, arg_DBUpdate_fn
+//@   ensures one_transaction: calls_DBUpdate == old(calls_DBUpdate) + 1 && result == writeErr
+//@   ensures filter_only_inside: calls_OnReorg == old(calls_OnReorg) && calls_OnReorgWithBatch == old(calls_OnReorgWithBatch)
+//@ func (*deprecatedStateBackend).RevertHead$1
+//@   props C04
+//@   arith int
+//@   nosafe
+//@   requires *b != nil && (*b).runningFilter != nil
+//@   modifies *
+//@   assigns headRead, calls_GetStateUpdate, arg_GetStateUpdate_r, arg_GetStateUpdate_blockNum, calls_GetHeader, arg_GetHeader_r, arg_GetHeader_blockNum, calls_LegacyRevert, arg_LegacyRevert_header, arg_LegacyRevert_update, calls_deleteBlockContent, arg_deleteBlockContent_r, arg_deleteBlockContent_w, arg_deleteBlockContent_stateUpdate, arg_deleteBlockContent_blockNumber, calls_OnReorgWithBatch, arg_OnReorgWithBatch_batch
+//@   callsite GetStateUpdateByBlockNum@*: of_the_head: $1 == headRead
+//@   callsite GetBlockHeaderByNumber@*: of_the_head: $1 == headRead
+//@   callsite deleteBlockContent@*: of_the_head_into_the_batch: $0 == txn && $1 == txn && $3 == headRead
+//@   callsite OnReorgWithBatch@*: into_the_batch: $1 == txn
+//@   ensures all_steps_once: result == nil ==> calls_LegacyRevert == old(calls_LegacyRevert) + 1 && calls_deleteBlockContent == old(calls_deleteBlockContent) + 1 && calls_OnReorgWithBatch == old(calls_OnReorgWithBatch) + 1
+//@   ensures filter_with_the_batch: calls_OnReorg == old(calls_OnReorg)
